@@ -123,7 +123,14 @@ func evalLoad(x *ctx, cs Case, mo *modelOut) ImplResult {
 		return impl
 	}
 	for _, v := range checklist(&cs.Cfg) {
-		fail("accepted-violating:"+v.key, "accepted at load although "+v.detail)
+		key := "accepted-violating:" + v.key
+		switch v.key {
+		case "dup:domain-set":
+			key = keyF20d
+		case "dup:prefix-set":
+			key = keyF20p
+		}
+		fail(key, "accepted at load although "+v.detail)
 	}
 	for _, v := range defaultsOracle(&cs.Cfg, impl.Eff) {
 		fail(v.key, v.detail)
@@ -224,6 +231,8 @@ const (
 	keyF4  = "F4:direct-targetonly-domain-accepted"
 	keyF12 = "F12:omitted-rejectpolicy-not-default"
 	keyF15 = "F15:unbounded-filter-size-accepted"
+	keyF20d = "F20:dup-domain-set-accepted"
+	keyF20p = "F20:dup-prefix-set-accepted"
 )
 
 func probes(x *ctx) error {
@@ -242,6 +251,25 @@ func probes(x *ctx) error {
 		}
 		evalLoad(x, cs, m)
 		x.rep.FindingsProbed[keyF12] = x.rep.Distribution["ORACLE-FAIL:"+keyF12] > before
+	}
+	// F20: two domain sets / prefix sets of one name
+	for _, pr := range []struct {
+		key string
+		rt  RouterC
+	}{{keyF20d, RouterC{DS: []string{"ds0", "ds0"}}}, {keyF20p, RouterC{PS: []string{"ps0", "ps0"}}}} {
+		c := ConfigC{Servers: []ServerC{{Name: "s0", Proto: "socks5", TL: []TLc{{Net: "tcp"}}}}, Router: pr.rt}
+		cs := Case{Kind: "probe", Probe: "F20", Cfg: c}
+		mo, err := runModel(x, []ConfigC{c})
+		if err != nil {
+			return err
+		}
+		var m *modelOut
+		if mo != nil {
+			m = &mo[0]
+		}
+		before := x.rep.Distribution["ORACLE-FAIL:"+pr.key]
+		evalLoad(x, cs, m)
+		x.rep.FindingsProbed[pr.key] = x.rep.Distribution["ORACLE-FAIL:"+pr.key] > before
 	}
 	// F4: direct + tunnelUDPTargetOnly + DOMAIN tunnel address + a UDP listener: accepted, then the first reply datagram panics
 	{
@@ -390,7 +418,7 @@ func replay(x *ctx, cs Case) error {
 				noudp = true
 			}
 		}
-		if cs.Probe != "F12" && cs.Probe != "F15-replay" {
+		if cs.Probe != "F12" && cs.Probe != "F20" && cs.Probe != "F15-replay" {
 			evalSmoke(x, cs, SmokePlan{Doc: smokeDoc(cs.Cfg), Mode: mode, NoUDP: noudp}, key)
 		}
 	}
